@@ -20,6 +20,9 @@ Arith1(s) == {Bin(o, x, y) : o \in Ops, x \in {Fld(s, "a"), Num("7")}, y \in {Fl
 Arith2(s) == {Bin(o2, Bin(o1, Fld(s, "a"), Num("2")), z) : o1 \in Ops, o2 \in Ops, z \in {Fld(s, "b"), Num("-1")}}
              \cup {Bin(o2, z, Bin(o1, Fld(s, "a"), Num("2"))) : o1 \in Ops, o2 \in Ops, z \in {Fld(s, "b"), Num("-1")}}
              \cup {Bin(o2, z, Bin(o1, Num("-1"), Fld(s, "a"))) : o1 \in {"-", "*"}, o2 \in {"-", "+"}, z \in {Fld(s, "b")}}
+Frames == { [unit |-> "ROWS", lo |-> <<"P", 1>>, hi |-> <<"C">>], [unit |-> "ROWS", lo |-> <<"P", 0>>, hi |-> <<"F", 1>>], [unit |-> "ROWS", lo |-> <<"P", -1>>, hi |-> <<"C">>],
+            [unit |-> "ROWS", lo |-> <<"P", 2>>, hi |-> <<>>], [unit |-> "ROWS", lo |-> <<"C">>, hi |-> <<"F", -1>>], [unit |-> "ROWS", lo |-> <<"F", 0>>, hi |-> <<"F", 2>>],
+            [unit |-> "RANGE", lo |-> <<"P", -1>>, hi |-> <<"C">>], [unit |-> "RANGE", lo |-> <<"C">>, hi |-> <<"F", -1>>] }
 Other(s) == { [k |-> "neg", a |-> Fld(s, "a")], [k |-> "neg", a |-> Bin("+", Fld(s, "a"), Fld(s, "b"))], [k |-> "neg", a |-> Num("-1")],
               [k |-> "case", w |-> Bin("<", Fld(s, "a"), Num("2")), t |-> Fld(s, "b"), e |-> Num("0")],
               Call("ABS", <<Bin("-", Fld(s, "a"), Fld(s, "b"))>>), Call("COALESCE", <<Fld(s, "b"), Num("0")>>),
@@ -31,6 +34,8 @@ Other(s) == { [k |-> "neg", a |-> Fld(s, "a")], [k |-> "neg", a |-> Bin("+", Fld
               [k |-> "win", f |-> "SUM", args |-> <<Fld(s, "b")>>, part |-> <<Fld(s, "c"), Fld(s, "a")>>, ord |-> <<Fld(s, "b"), Fld(s, "a")>>, sep |-> TRUE],
               [k |-> "win", f |-> "SUM", args |-> <<Fld(s, "b")>>, part |-> <<Fld(s, "c"), Fld(s, "b")>>, ord |-> <<>>, sep |-> TRUE],
               [k |-> "win", f |-> "SUM", args |-> <<Fld(s, "b")>>, part |-> <<Fld(s, "c"), Fld(s, "b")>>, ord |-> <<Fld(s, "a")>>] }
+           \cup {[k |-> "win", f |-> "SUM", args |-> <<Fld(s, "b")>>, part |-> <<Fld(s, "c")>>, ord |-> <<Fld(s, "a")>>, frame |-> fr] : fr \in Frames}
+
 SelTerms(s) == Arith1(s) \cup Arith2(s) \cup Other(s)
 Atom(s) == {Bin("=", Fld(s, "a"), Num("1")), Bin("<", Fld(s, "b"), Num("2")), Bin("<>", Fld(s, "c"), Str("x")), [k |-> "isnull", a |-> Fld(s, "b")]}
 Crits(s) == Atom(s)
